@@ -10,6 +10,7 @@ Import ListNotations.
 Section Rep.
 Variable H : bytes -> bytes.
 Hypothesis Hlen : forall x, length (H x) = 32.
+Variable climit : nat.          (* Trie.CacheHeightLimit *)
 
 Definition flagb (t : tree bytes) : N := match t with Lf _ _ => 1%N | _ => 0%N end.
 Definition enc (h : nat) (rp : list bool) (t : tree bytes) : bytes :=
@@ -30,14 +31,21 @@ Fixpoint lrep (h : nat) (b : batch) (i : nat) (rp : list bool) (t : tree bytes) 
        else lrep (pred h) b (2 * i + 1) (false :: rp) l /\ lrep (pred h) b (2 * i + 2) (true :: rp) r)
   end.
 
-(** the batch stored under hash x is the canonical batch of some tree position with hash x *)
-Definition canb (x : bytes) (b : batch) : Prop :=
-  exists h rp t, h mod 4 = 0 /\ length rp + h = 256 /\ wf h t /\ vals32 t /\ t <> E /\
+(** the batch stored under hash x is the canonical batch of some tree position (of height h)
+    with hash x *)
+Definition canb_at (h : nat) (x : bytes) (b : batch) : Prop :=
+  exists rp t, h mod 4 = 0 /\ length rp + h = 256 /\ wf h t /\ vals32 t /\ t <> E /\
     x = th H h rp t /\ length b = 31 /\ bget b 0 = [flagb t] /\ lrep h b 0 rp t.
+Definition canb (x : bytes) (b : batch) : Prop := exists h, canb_at h x b.
+(** ... of a position at or above the cache limit (what storeNode puts into liveCache) *)
+Definition canb_ge (x : bytes) (b : batch) : Prop := exists h, climit <= h /\ canb_at h x b.
 
+(** content-addressed store: updatedNodes, the disk store and liveCache ([cache_canonical]) *)
+Definition cache_canonical (st : store) : Prop := forall x b, In (x, b) (cache st) -> canb_ge x b.
 Definition inv_st (st : store) : Prop :=
   (forall x b, In (x, b) (upd st) -> canb x b) /\
-  (forall x val, alookup (db st) x = Some val -> val <> [] -> canb x (parse_batch val)).
+  (forall x val, alookup (db st) x = Some val -> val <> [] -> canb x (parse_batch val)) /\
+  cache_canonical st.
 
 (** ---- enc ---- *)
 Lemma th_len32 h rp t : t <> E -> length (th H h rp t) = 32.
@@ -111,18 +119,27 @@ Proof.
   induction l as [|[k' v'] l IH]; simpl; [auto|]. destruct (beqb k' k); [intros Hin; right; auto|simpl; intros [->|Hin]; auto].
 Qed.
 
-Lemma inv_delete atomic st root mv : inv_st st -> inv_st (delete_old_node atomic st root mv).
+Lemma canb_ge_canb x b : canb_ge x b -> canb x b.
+Proof. intros (h & _ & Hc). exists h. exact Hc. Qed.
+
+Lemma inv_delete atomic st root height mv : inv_st st -> inv_st (delete_old_node atomic climit st root height mv).
 Proof.
-  intros [Hu Hd]. unfold delete_old_node. destruct (negb atomic || mv); [|split; auto].
-  split; simpl; auto. intros x b Hx. apply Hu. eapply in_aremove; eauto.
+  intros (Hu & Hd & Hc). unfold delete_old_node. split; [|split]; simpl; auto.
+  - destruct (negb atomic || mv); auto. intros x b Hx. apply Hu. eapply in_aremove; eauto.
+  - destruct (Nat.leb climit height); auto. intros x b Hx. apply Hc. eapply in_aremove; eauto.
 Qed.
 
-Lemma inv_store_node atomic st b hh old : inv_st st -> canb (map_key hh) b -> inv_st (store_node atomic st b hh old).
+Lemma inv_store_node atomic st b hh old height :
+  inv_st st -> canb_at height (map_key hh) b -> inv_st (store_node atomic climit st b hh old height).
 Proof.
-  intros [Hu Hd] Hc. unfold store_node.
-  set (st1 := {| db := db st; upd := aput (upd st) (map_key hh) b |}).
+  intros (Hu & Hd & Hc) Hb. unfold store_node.
+  set (st1 := {| db := db st; upd := aput (upd st) (map_key hh) b;
+                 cache := if Nat.leb climit height then aput (cache st) (map_key hh) b else cache st |}).
   assert (I1 : inv_st st1).
-  { split; simpl; auto. intros x b' [Hx|Hx]; [inversion Hx; subst; exact Hc|]. apply Hu. eapply in_aremove; eauto. }
+  { split; [|split]; simpl; auto.
+    - intros x b' [Hx|Hx]; [inversion Hx; subst; exists height; exact Hb|]. apply Hu. eapply in_aremove; eauto.
+    - destruct (Nat.leb climit height) eqn:El; [|exact Hc]. apply Nat.leb_le in El.
+      intros x b' [Hx|Hx]; [inversion Hx; subst; exists height; auto|]. apply Hc. eapply in_aremove; eauto. }
   destruct (Nat.ltb (length old) 32 || negb (beqb (hash_of hh) (hash_of old))); [apply inv_delete|]; exact I1.
 Qed.
 
@@ -232,10 +249,12 @@ Lemma load_canonical st root h rp t b :
   load_batch st root = Some b ->
   (length b = 31 /\ bget b 0 = [flagb t] /\ lrep h b 0 rp t) \/ hash_break H.
 Proof.
-  intros [Hu Hd] Hm Hh W V Hne Lr Hr Hl. unfold load_batch in Hl.
+  intros (Hu & Hd & Hca) Hm Hh W V Hne Lr Hr Hl. unfold load_batch in Hl.
   rewrite (map_key_hash_of root Lr), Hr in Hl.
   assert (Hc : canb (th H h rp t) b).
-  { destruct (alookup (upd st) (th H h rp t)) as [b0|] eqn:Eu.
+  { destruct (alookup (cache st) (th H h rp t)) as [b1|] eqn:Ec.
+    { inversion Hl; subst. apply canb_ge_canb. apply Hca. apply alookup_in. exact Ec. }
+    destruct (alookup (upd st) (th H h rp t)) as [b0|] eqn:Eu.
     - inversion Hl; subst. apply Hu. apply alookup_in. exact Eu.
     - destruct (alookup (db st) (th H h rp t)) as [val|] eqn:Ed; [|discriminate].
       destruct val as [|x val'] eqn:Ev; [discriminate|]. inversion Hl; subst. apply (Hd _ _ Ed). discriminate. }
